@@ -277,7 +277,8 @@ CHECKS = {
                        "with the new build's signature, old build optionally damaged: whatever reaches the underlying pool must be the signed "
                        "content or a block-aligned prefix of it; undamaged => nil and complete; a recording bowl keeps the data handed to the pool bowl per file "
                        "(Write payloads, or the old file a Transpose copies): if it has a bad block by the model, some call into the bowl (Transpose, Write, Close) must return an "
-                       "error, and if a call into the bowl failed the application must not return nil - a rejection nobody hears of checks nothing."),
+                       "error, and if a call into the bowl failed the application must not return nil - a rejection nobody hears of checks nothing. Third stage: 2-6 files of one pool (1-24 blocks each, some with one flipped block) whose writers are opened one after the other and then written "
+                       "at the same time, one goroutine per file: every writer must judge its own file exactly as it would alone (error and wound mode); the same stage also runs under the race detector."),
         "level_note": "wounds emitted for blocks beyond the signed length are outside the statement and ignored by the tiling oracle.",
         "rule": ("rapid draws (files, written variants, slicings, mode). Non-trivial: a write that straddles a block boundary together with a bad "
                  "block that is not the first (error mode), or a differing block that is not the first (wound modes). Distinct: SHA-1 of the spec."),
@@ -285,7 +286,10 @@ CHECKS = {
         "required_classes": {"quick": ["mode:error", "mode:wounds", "mode:aggregate", "bad-block:not-first", "bad-block:beyond-signed-count", "bad-block:same-weak-hash", "write:straddles-block-boundary"],
                              "thorough": ["mode:error", "mode:wounds", "mode:aggregate", "bad-block:not-first", "bad-block:beyond-signed-count", "write:straddles-block-boundary"]},
         "stages": [rapid("validatingpool", "TestProp", 48000, 2000000, qs=16, ts=16, qt=600, tt=5400),
-                   rapid("viapatcher", "TestViaPatcher", 4800, 192000, qs=16, ts=16, qt=600, tt=5400)],
+                   rapid("viapatcher", "TestViaPatcher", 4800, 192000, qs=16, ts=16, qt=600, tt=5400),
+                   rapid("parallel", "TestParallel", 1600, 64000, qs=8, ts=16, qt=600, tt=5400, schedule_dependent=True, shrinktime="10s"),
+                   rapid("parallelrace", "TestParallel", 240, 4800, qs=8, ts=16, qt=900, tt=5400, race=True, schedule_dependent=True, shrinktime="10s")],
+        "replay_race": False,
     },
     "C13": {
         "title": "Messages survive any compression setting; reader checkpoints resume exactly",
